@@ -181,11 +181,13 @@ theorem lines_roundtrip_crlf (ws : List Str) (final : Bool)
 /-- how the test cases arrive: as arguments, or as text that goes through `str::lines` (a file, standard input, a file named on
 standard input: `obtain_input` applies `lines` to all three) -/
 inductive CliInput where
-  | args (ws : List Str)
+  | args (ws : List Str) (stdin : Str)
   | content (t : Str)
 
+/-- the arguments are the test cases, whatever standard input holds — unless the single argument is a hyphen, which stands for the lines
+of standard input (`cliHyphenAloneMeansStdin`, read off `obtain_input` on every run) -/
 def cliCases : CliInput → List Str
-  | .args ws => ws
+  | .args ws stdin => if ws = [[45]] then splitLines stdin else ws
   | .content t => splitLines t
 
 /-- what `main` does with a usable command line — the composition of `obtain_input`, `handle_input` and `println!` as read off
@@ -211,8 +213,16 @@ def libRun (env : Env) (v : CliVals) (ws : List Str) : Except Panic (Option Str)
 /-- **C12 (faithful front end, arguments)** for every flag combination with positive thresholds and every non-empty list of test cases
 the CLI prints exactly the library's `build()` result for the corresponding settings followed by a newline -/
 theorem cli_is_library (env : Env) (v : CliVals) (h1 : 0 < v.minRepetitions) (h2 : 0 < v.minSubstringLength)
-    (ws : List Str) (hws : ws ≠ []) : cliRun env v (.args ws) = libRun env v ws := by
-  simp only [cliRun, cliCases, hws, ite_false, cli_dispatch v h1 h2, libRun]
+    (ws : List Str) (hws : ws ≠ []) (hhy : ws ≠ [[45]]) (stdin : Str) : cliRun env v (.args ws stdin) = libRun env v ws := by
+  simp only [cliRun, cliCases, hws, hhy, ite_false, cli_dispatch v h1 h2, libRun]
+
+/-- a hyphen as the single argument stands for standard input; a hyphen among several arguments is a test case (`cli_is_library`) -/
+theorem cli_hyphen_is_stdin (env : Env) (v : CliVals) (stdin : Str) :
+    cliRun env v (.args [[45]] stdin) = cliRun env v (.content stdin) := by
+  simp only [cliRun, cliCases, ite_true]
+  try rfl
+
+theorem cli_hyphen_rule : cliHyphenAloneMeansStdin = true := rfl
 
 /-- **C12 (faithful front end, every channel)** … and the same when the test cases arrive as text with LF or CRLF line endings, with or
 without a final line break (test cases that can travel on a line of their own: no line feed inside, no carriage return at the end under
@@ -225,13 +235,12 @@ theorem cli_channels_agree (env : Env) (v : CliVals) (h1 : 0 < v.minRepetitions)
     cases crlf with
     | true => exact lines_roundtrip_crlf ws final (fun w hw => (h w hw).1) hlast
     | false => exact lines_roundtrip_lf ws final (fun w hw => ⟨(h w hw).1, (h w hw).2 rfl⟩) hlast
-  rw [← cli_is_library env v h1 h2 ws hws]
-  simp only [cliRun, cliCases, hl]
-  try rfl
+  simp only [cliRun, cliCases, hl, hws, ite_false, cli_dispatch v h1 h2, libRun]
 
 /-- **C12 (no test cases)** an empty file, empty standard input or no usable line ends with the one-line error, on every channel -/
-theorem cli_empty_input (env : Env) (v : CliVals) : cliRun env v (.content []) = .ok none ∧ cliRun env v (.args []) = .ok none := by
-  constructor <;> simp [cliRun, cliCases, splitLines, splitLines.go]
+theorem cli_empty_input (env : Env) (v : CliVals) (stdin : Str) :
+    cliRun env v (.content []) = .ok none ∧ cliRun env v (.args [] stdin) = .ok none ∧ cliRun env v (.args [[45]] []) = .ok none := by
+  refine ⟨?_, ?_, ?_⟩ <;> simp [cliRun, cliCases, splitLines, splitLines.go]
 
 /-! non-vacuity -/
 example : (match cliRun { lowerOf := id, segOf := fun w => w.map fun c => [c] } { digits := true } (.content (strOf "a1\r\nb\r\n")) with
